@@ -4,6 +4,7 @@ import (
 	"regexp"
 	"regexp/syntax"
 	"unicode"
+	"unicode/utf8"
 )
 
 func compile(s string) (Pattern, error) {
@@ -25,7 +26,7 @@ func compileOptimized(s string, re *syntax.Regexp) Pattern {
 	// A case-folded literal, like `(?i)foo` or `[Ff]`, can't be matched
 	// with the strings/bytes functions: they compare bytes exactly.
 	isLit := func(re *syntax.Regexp) bool {
-		return re.Op == syntax.OpLiteral && re.Flags&syntax.FoldCase == 0
+		return re.Op == syntax.OpLiteral && re.Flags&syntax.FoldCase == 0 && isPlainLiteral(re.Rune)
 	}
 	// ^
 	isBegin := func(re *syntax.Regexp) bool {
@@ -83,4 +84,19 @@ func compileOptimized(s string, re *syntax.Regexp) Pattern {
 
 	// Can't optimize.
 	return nil
+}
+
+// isPlainLiteral reports whether every rune of a literal can be found
+// in the input by comparing its UTF-8 encoding byte by byte.
+//
+// That is not the case for utf8.RuneError (regexp decodes every invalid
+// input byte to it, so `\x{FFFD}` matches "\xff") and for surrogate
+// halves (string(r) turns them into "\uFFFD", regexp never matches them).
+func isPlainLiteral(runes []rune) bool {
+	for _, r := range runes {
+		if r == utf8.RuneError || !utf8.ValidRune(r) {
+			return false
+		}
+	}
+	return true
 }
